@@ -144,7 +144,9 @@ def deprecatedToUsefulText(ctx:model.Documentable, name:str, deprecated:ast.Call
     if replacement is not None and not validate_identifier(replacement):
         # The replacement is not an identifier, so don't even try to resolve it.
         # By adding extras backtics, we make the replacement a literal text.
-        replacement = replacement.replace('\n', ' ')
+        # The text must stay a single reStructuredText literal: no line separator of any kind, 
+        # no leading or trailing whitespace and no backtick.
+        replacement = ' '.join(replacement.replace('`', "'").split())
         replacement = f"`{replacement}`"
     
     if replacement is not None:
